@@ -145,7 +145,15 @@ def grid_cases(draw, tier):
     rsplit = [g for g in grids if g[0] > 1]
     g = draw(st.sampled_from(rsplit if rsplit and draw(st.integers(0, 3)) > 0 else grids))
     return {"cfg": cfg, "nprocs": g, "seed": draw(st.integers(0, 2 ** 16)), "complex": draw(st.booleans()),
-            "schedule": draw(gen.schedules(8))}
+            "blob": [draw(st.floats(0, 0.999)) for _ in range(3)], "schedule": draw(gen.schedules(8))}
+
+
+def blob_field(c, F):
+    """A distribution supported on one (r, theta, z) line only: most processes then hold an identically zero block."""
+    F2 = np.zeros_like(F)
+    i, j, k = (int(fr * n) for fr, n in zip(c["blob"], F.shape[:3]))
+    F2[i, j, k, :] = F[i, j, k, :]
+    return F2
 
 
 def _grid_rank(ctx, c):
@@ -189,6 +197,16 @@ def _grid_rank(ctx, c):
     rho.getAllData()[:] = stale
     df.getPerturbedRho(f, rho)
     out["pert_first_again"] = sim.piece(rho)
+    # distributions that vanish on whole blocks: a single (r, theta, z) line, and the zero distribution (whose perturbed
+    # density is minus the equilibrium density)
+    for name, G in (("blob", blob_field(c, F)), ("zero", np.zeros_like(F))):
+        sim.fill(f, G)
+        rho.getAllData()[:] = stale
+        df.getPerturbedRho(f, rho)
+        out["pert_" + name] = sim.piece(rho)
+        rho.getAllData()[:] = stale
+        df.getRho(f, rho)
+        out["full_" + name] = sim.piece(rho)
     return out
 
 
@@ -204,7 +222,9 @@ def grid_pred(c):
     F = sim.equilibrium_like_field(cfg, eta, c["seed"])
     pert = ref.rho(F, True)
     for name, want in (("pert", pert), ("full", ref.rho(F, False)), ("init_pert", ref.rho(ref.init_f(), True)),
-                       ("pert_second_finder", pert), ("pert_first_again", pert)):
+                       ("pert_second_finder", pert), ("pert_first_again", pert),
+                       ("pert_blob", ref.rho(blob_field(c, F), True)), ("full_blob", ref.rho(blob_field(c, F), False)),
+                       ("pert_zero", ref.rho(np.zeros_like(F), True)), ("full_zero", ref.rho(np.zeros_like(F), False))):
         got = sim.assemble([r[name] for r in res], shape, name)
         scale = float(np.abs(ref.rho(F, False)).max())
         err = np.abs(got - want)
@@ -213,7 +233,7 @@ def grid_pred(c):
             raise Violation("C16:grid:" + name, "process grid %s: density '%s' at global (r,theta,z)=%s is %r, reference with the "
                             "equilibrium of global radius %d gives %r" % (c["nprocs"], name, idx, got[idx], idx[0], want[idx]))
     return {"nontrivial": c["nprocs"][0] > 1, "labels": ["P=%d" % P, "complex" if c["complex"] else "float",
-                                                          "r-split" if c["nprocs"][0] > 1 else "r-whole"], "evals": 5}
+                                                          "r-split" if c["nprocs"][0] > 1 else "r-whole"], "evals": 9}
 
 
 SUBS = {"kernel": Sub(kernel_pred, strategy=kernel_cases), "grid": Sub(grid_pred, strategy=grid_cases)}
